@@ -67,7 +67,12 @@ VIter(ev) ==
   IF Len(ord) # Len(st) \/ {ord[i] : i \in DOMAIN ord} # DOMAIN st THEN "iteration:permutation"
   ELSE Ok(\A i \in 1..(Len(ord) - 1) : st[ord[i]] <= st[ord[i + 1]], "iteration:ordered-by-start")
 
-Verdict(ev) == CASE ev[1] = "gene" -> VGene(ev) [] ev[1] = "fc" -> VFc(ev) [] ev[1] = "iter" -> VIter(ev)
+(* ["collspan", memberSpans, start, end] : an annotation collection built without bounds and without a parent spans its
+   members -- minimum start, MAXIMUM end (the member that starts last need not end last) *)
+VCollSpan(ev) ==
+  LET ms == ev[2] IN
+  Ok(ev[3] = Min({ms[i][1] : i \in DOMAIN ms}) /\ ev[4] = Max({ms[i][2] : i \in DOMAIN ms}), "collection-span")
+Verdict(ev) == CASE ev[1] = "collspan" -> VCollSpan(ev) [] ev[1] = "gene" -> VGene(ev) [] ev[1] = "fc" -> VFc(ev) [] ev[1] = "iter" -> VIter(ev)
                  [] OTHER -> "unknown-op"
 Bad == {i \in DOMAIN Trace : Verdict(Trace[i]) # "ok"}
 ASSUME \A i \in Bad : PrintT(<<"BAD", i, Verdict(Trace[i])>>)
